@@ -28,7 +28,7 @@ INIT Init
 NEXT Next
 CHECK_DEADLOCK FALSE
 """ + "".join(f"INVARIANT {i}\n" for i in invariants) + ("INVARIANT Emit\n" if emit else "")
-    return core.run_tlc("RaireMC", cfg, workers=workers, timeout=3400, heap="8g")
+    return core.run_tlc("RaireMC", cfg, workers=workers, timeout=3400, heap="8g", coverage=True)
 
 
 def run_search(tid, cands, profile, winner, fn, hint, total=None):
@@ -38,7 +38,8 @@ def run_search(tid, cands, profile, winner, fn, hint, total=None):
     total = len(profile) if total is None else total
     rec = {"kind": "search", "tid": tid, "cands": cands, "winner": winner, "fn": fn, "hint": hint or [],
            "profile": profile, "total": total}
-    contest = RC("con", list(cands), winner, total, order=list(hint or []))
+    # the reported winner is the function's argument; the Contest object's own winner field may say something else
+    contest = RC("con", list(cands), cands[(len(profile) + total) % len(cands)], total, order=list(hint or []))
     cvrs = {f"b{k}": {"con": {c: j for j, c in enumerate(b)}} for k, b in enumerate(profile)}
     f = se.cp_estimate if fn == "cp" else se.bp_estimate
     try:
